@@ -31,7 +31,13 @@ def main():
 		sh(f"rsync -a --exclude .git --exclude replays --exclude seeded {HERE}/ {copy}/")
 		wt = tempfile.mkdtemp(prefix=f"serif-recheck-{k}-")
 		os.rmdir(wt)
-		assert sh(f"git -C {REPO} worktree add -q --detach {wt} HEAD").returncode == 0
+		for attempt in range(20):      # (concurrent `git worktree add` calls contend for one lock file)
+			if sh(f"git -C {REPO} worktree add -q --detach {wt} HEAD").returncode == 0:
+				break
+			import time
+			time.sleep(0.5 + 0.1 * k)
+		else:
+			raise AssertionError("could not create a scratch worktree")
 		try:
 			while True:
 				try:
